@@ -9,6 +9,10 @@ type nat =
 | O
 | S of nat
 
+type ('a, 'b) sum =
+| Inl of 'a
+| Inr of 'b
+
 (** val fst : ('a1 * 'a2) -> 'a1 **)
 
 let fst = function
@@ -18,6 +22,12 @@ let fst = function
 
 let snd = function
 | (_, y) -> y
+
+(** val length : 'a1 list -> nat **)
+
+let rec length = function
+| [] -> O
+| _ :: l' -> S (length l')
 
 (** val app : 'a1 list -> 'a1 list -> 'a1 list **)
 
@@ -60,6 +70,25 @@ type z =
 | Z0
 | Zpos of positive
 | Zneg of positive
+
+(** val eqb : bool -> bool -> bool **)
+
+let eqb b1 b2 =
+  if b1 then b2 else if b2 then false else true
+
+module Nat =
+ struct
+  (** val eqb : nat -> nat -> bool **)
+
+  let rec eqb n0 m =
+    match n0 with
+    | O -> (match m with
+            | O -> true
+            | S _ -> false)
+    | S n' -> (match m with
+               | O -> false
+               | S m' -> eqb n' m')
+ end
 
 module Pos =
  struct
@@ -360,6 +389,12 @@ module Coq_Pos =
 
   let to_nat x =
     iter_op Coq__1.add x (S O)
+
+  (** val of_succ_nat : nat -> positive **)
+
+  let rec of_succ_nat = function
+  | O -> XH
+  | S x -> succ (of_succ_nat x)
  end
 
 module N =
@@ -571,6 +606,12 @@ module N =
   | N0 -> O
   | Npos p -> Coq_Pos.to_nat p
 
+  (** val of_nat : nat -> n **)
+
+  let of_nat = function
+  | O -> N0
+  | S n' -> Npos (Coq_Pos.of_succ_nat n')
+
   (** val ones : n -> n **)
 
   let ones n0 =
@@ -623,11 +664,23 @@ let rec existsb f = function
 | [] -> false
 | a :: l0 -> (||) (f a) (existsb f l0)
 
+(** val forallb : ('a1 -> bool) -> 'a1 list -> bool **)
+
+let rec forallb f = function
+| [] -> true
+| a :: l0 -> (&&) (f a) (forallb f l0)
+
 (** val filter : ('a1 -> bool) -> 'a1 list -> 'a1 list **)
 
 let rec filter f = function
 | [] -> []
 | x :: l0 -> if f x then x :: (filter f l0) else filter f l0
+
+(** val find : ('a1 -> bool) -> 'a1 list -> 'a1 option **)
+
+let rec find f = function
+| [] -> None
+| x :: tl -> if f x then Some x else find f tl
 
 (** val skipn : nat -> 'a1 list -> 'a1 list **)
 
@@ -637,6 +690,12 @@ let rec skipn n0 l =
   | S n1 -> (match l with
              | [] -> []
              | _ :: l0 -> skipn n1 l0)
+
+(** val repeat : 'a1 -> nat -> 'a1 list **)
+
+let rec repeat x = function
+| O -> []
+| S k -> x :: (repeat x k)
 
 module Z =
  struct
@@ -4879,6 +4938,67 @@ type color =
 | White
 | Black
 
+type piece =
+| Pawn
+| Knight
+| Bishop
+| Rook
+| Queen
+| King
+
+type side =
+| KingSide
+| QueenSide
+
+(** val color_idx : color -> n **)
+
+let color_idx = function
+| White -> N0
+| Black -> Npos XH
+
+(** val piece_idx : piece -> n **)
+
+let piece_idx = function
+| Pawn -> N0
+| Knight -> Npos XH
+| Bishop -> Npos (XO XH)
+| Rook -> Npos (XI XH)
+| Queen -> Npos (XO (XO XH))
+| King -> Npos (XI (XO XH))
+
+(** val side_idx : side -> n **)
+
+let side_idx = function
+| KingSide -> N0
+| QueenSide -> Npos XH
+
+(** val opp0 : color -> color **)
+
+let opp0 = function
+| White -> Black
+| Black -> White
+
+(** val color_eqb : color -> color -> bool **)
+
+let color_eqb a b =
+  match a with
+  | White -> (match b with
+              | White -> true
+              | Black -> false)
+  | Black -> (match b with
+              | White -> false
+              | Black -> true)
+
+(** val piece_eqb : piece -> piece -> bool **)
+
+let piece_eqb a b =
+  N.eqb (piece_idx a) (piece_idx b)
+
+(** val promo_pieces : piece list **)
+
+let promo_pieces =
+  Queen :: (Rook :: (Bishop :: (Knight :: [])))
+
 (** val file_of : n -> n **)
 
 let file_of s =
@@ -4889,10 +5009,39 @@ let file_of s =
 let rank_of s =
   N.div s (Npos (XO (XO (XO XH))))
 
+(** val mk_sq : n -> n -> n **)
+
+let mk_sq f r =
+  N.add (N.mul r (Npos (XO (XO (XO XH))))) f
+
+type move = { m_src : n; m_dst : n; m_promo : piece option }
+
+(** val opt_piece_eqb : piece option -> piece option -> bool **)
+
+let opt_piece_eqb a b =
+  match a with
+  | Some x -> (match b with
+               | Some y -> piece_eqb x y
+               | None -> false)
+  | None -> (match b with
+             | Some _ -> false
+             | None -> true)
+
+(** val move_eqb : move -> move -> bool **)
+
+let move_eqb a b =
+  (&&) ((&&) (N.eqb a.m_src b.m_src) (N.eqb a.m_dst b.m_dst))
+    (opt_piece_eqb a.m_promo b.m_promo)
+
 (** val bb_empty : n **)
 
 let bb_empty =
   N0
+
+(** val bb_full : n **)
+
+let bb_full =
+  mask64
 
 (** val from_pos : n -> n **)
 
@@ -5046,6 +5195,10 @@ let nth_default a n0 =
     (S (S (S (S (S (S (S (S (S (S (S (S (S (S (S (S (S (S (S (S (S (S (S
     O)))))))))))))))))))))))))))))))))))))))))))))))))))))))))))))))))) a n0
 
+type 'a outcome =
+| Ret of 'a
+| Trap
+
 (** val from_squares : n list -> n **)
 
 let from_squares l =
@@ -5098,8 +5251,8 @@ let opt_list = function
 
 (** val offsets_set : n -> (z * z) list -> n **)
 
-let offsets_set s offs =
-  set_of (flat_map (fun d -> opt_list (sq_off s (fst d) (snd d))) offs)
+let offsets_set s offs0 =
+  set_of (flat_map (fun d -> opt_list (sq_off s (fst d) (snd d))) offs0)
 
 type dir =
 | DN
@@ -6172,6 +6325,2009 @@ let rec run_stack_from ths s k = function
 let run_stack ths tr =
   snd (run_stack_from ths init [] tr)
 
+type cell = (color * piece) option
+
+type position = { cells : cell list; stm : color; cr_wk : bool; cr_wq : 
+                  bool; cr_bk : bool; cr_bq : bool; epf : n option; hm : 
+                  n; fm : n }
+
+(** val cell_at : cell list -> n -> cell **)
+
+let cell_at cs s =
+  nth (N.to_nat s) cs None
+
+(** val set_nth : 'a1 list -> nat -> 'a1 -> 'a1 list **)
+
+let rec set_nth l n0 v =
+  match l with
+  | [] -> []
+  | x :: r -> (match n0 with
+               | O -> v :: r
+               | S n' -> x :: (set_nth r n' v))
+
+(** val cell_set : cell list -> n -> cell -> cell list **)
+
+let cell_set cs s v =
+  set_nth cs (N.to_nat s) v
+
+(** val is_piece : cell list -> color -> piece -> n -> bool **)
+
+let is_piece cs c p s =
+  match cell_at cs s with
+  | Some p0 -> let (c', p') = p0 in (&&) (color_eqb c c') (piece_eqb p p')
+  | None -> false
+
+(** val occupied : cell list -> n -> bool **)
+
+let occupied cs s =
+  match cell_at cs s with
+  | Some _ -> true
+  | None -> false
+
+(** val has_color : cell list -> color -> n -> bool **)
+
+let has_color cs c s =
+  match cell_at cs s with
+  | Some p -> let (c', _) = p in color_eqb c c'
+  | None -> false
+
+(** val offs : n -> (z * z) list -> n list **)
+
+let offs s l =
+  flat_map (fun d -> opt_list (sq_off s (fst d) (snd d))) l
+
+(** val first_occupied : cell list -> n list -> n option **)
+
+let rec first_occupied cs = function
+| [] -> None
+| t :: r -> if occupied cs t then Some t else first_occupied cs r
+
+(** val attacked_by : cell list -> color -> n -> bool **)
+
+let attacked_by cs c s =
+  (||)
+    ((||)
+      ((||)
+        ((||) (existsb (is_piece cs c Knight) (offs s knight_offs))
+          (existsb (is_piece cs c King) (offs s king_offs)))
+        (existsb (is_piece cs c Pawn)
+          (offs s (((Zneg XH), (Z.opp (fwd c))) :: (((Zpos XH),
+            (Z.opp (fwd c))) :: [])))))
+      (existsb (fun d ->
+        match first_occupied cs (ray d s) with
+        | Some t -> (||) (is_piece cs c Rook t) (is_piece cs c Queen t)
+        | None -> false) rook_dirs))
+    (existsb (fun d ->
+      match first_occupied cs (ray d s) with
+      | Some t -> (||) (is_piece cs c Bishop t) (is_piece cs c Queen t)
+      | None -> false) bishop_dirs)
+
+(** val king_square : cell list -> color -> n option **)
+
+let king_square cs c =
+  find (is_piece cs c King) sq_list
+
+(** val in_check_cells : cell list -> color -> bool **)
+
+let in_check_cells cs c =
+  match king_square cs c with
+  | Some k -> attacked_by cs (opp0 c) k
+  | None -> false
+
+(** val last_rank : color -> n **)
+
+let last_rank = function
+| White -> Npos (XI (XI XH))
+| Black -> N0
+
+(** val home_rank : color -> n **)
+
+let home_rank = function
+| White -> N0
+| Black -> Npos (XI (XI XH))
+
+(** val ep_capture_rank : color -> n **)
+
+let ep_capture_rank = function
+| White -> Npos (XI (XO XH))
+| Black -> Npos (XO XH)
+
+(** val ep_pawn_rank : color -> n **)
+
+let ep_pawn_rank = function
+| White -> Npos (XO (XO XH))
+| Black -> Npos (XI XH)
+
+(** val mk : n -> n -> piece option -> move **)
+
+let mk s d p =
+  { m_src = s; m_dst = d; m_promo = p }
+
+(** val with_promos : color -> n -> n -> move list **)
+
+let with_promos c s d =
+  if N.eqb (rank_of d) (last_rank c)
+  then map (fun p -> mk s d (Some p)) promo_pieces
+  else (mk s d None) :: []
+
+(** val slide_targets : cell list -> color -> n list -> n list **)
+
+let rec slide_targets cs c = function
+| [] -> []
+| t :: r ->
+  (match cell_at cs t with
+   | Some p -> let (c', _) = p in if color_eqb c c' then [] else t :: []
+   | None -> t :: (slide_targets cs c r))
+
+(** val can_castle_right : position -> color -> side -> bool **)
+
+let can_castle_right p c sd =
+  match c with
+  | White -> (match sd with
+              | KingSide -> p.cr_wk
+              | QueenSide -> p.cr_wq)
+  | Black -> (match sd with
+              | KingSide -> p.cr_bk
+              | QueenSide -> p.cr_bq)
+
+(** val castle_moves : position -> move list **)
+
+let castle_moves p =
+  let cs = p.cells in
+  let c = p.stm in
+  let r = home_rank c in
+  let k = mk_sq (Npos (XO (XO XH))) r in
+  if (||) (negb (is_piece cs c King k)) (attacked_by cs (opp0 c) k)
+  then []
+  else app
+         (if (&&)
+               ((&&)
+                 ((&&)
+                   ((&&)
+                     ((&&) (can_castle_right p c KingSide)
+                       (is_piece cs c Rook (mk_sq (Npos (XI (XI XH))) r)))
+                     (negb (occupied cs (mk_sq (Npos (XI (XO XH))) r))))
+                   (negb (occupied cs (mk_sq (Npos (XO (XI XH))) r))))
+                 (negb
+                   (attacked_by cs (opp0 c) (mk_sq (Npos (XI (XO XH))) r))))
+               (negb (attacked_by cs (opp0 c) (mk_sq (Npos (XO (XI XH))) r)))
+          then (mk k (mk_sq (Npos (XO (XI XH))) r) None) :: []
+          else [])
+         (if (&&)
+               ((&&)
+                 ((&&)
+                   ((&&)
+                     ((&&)
+                       ((&&) (can_castle_right p c QueenSide)
+                         (is_piece cs c Rook (mk_sq N0 r)))
+                       (negb (occupied cs (mk_sq (Npos XH) r))))
+                     (negb (occupied cs (mk_sq (Npos (XO XH)) r))))
+                   (negb (occupied cs (mk_sq (Npos (XI XH)) r))))
+                 (negb (attacked_by cs (opp0 c) (mk_sq (Npos (XI XH)) r))))
+               (negb (attacked_by cs (opp0 c) (mk_sq (Npos (XO XH)) r)))
+          then (mk k (mk_sq (Npos (XO XH)) r) None) :: []
+          else [])
+
+(** val is_ep_target : position -> color -> n -> bool **)
+
+let is_ep_target p c t =
+  match p.epf with
+  | Some f ->
+    (&&)
+      ((&&)
+        ((&&) (N.eqb (file_of t) f) (N.eqb (rank_of t) (ep_capture_rank c)))
+        (negb (occupied p.cells t)))
+      (is_piece p.cells (opp0 c) Pawn (mk_sq f (ep_pawn_rank c)))
+  | None -> false
+
+(** val pawn_moves_from : position -> n -> move list **)
+
+let pawn_moves_from p s =
+  let cs = p.cells in
+  let c = p.stm in
+  let pushes =
+    match sq_off s Z0 (fwd c) with
+    | Some t1 ->
+      if occupied cs t1
+      then []
+      else app (with_promos c s t1)
+             (if N.eqb (rank_of s) (start_rank c)
+              then (match sq_off s Z0 (Z.mul (Zpos (XO XH)) (fwd c)) with
+                    | Some t2 ->
+                      if occupied cs t2 then [] else (mk s t2 None) :: []
+                    | None -> [])
+              else [])
+    | None -> []
+  in
+  let caps =
+    flat_map (fun t ->
+      if has_color cs (opp0 c) t
+      then with_promos c s t
+      else if is_ep_target p c t then (mk s t None) :: [] else [])
+      (offs s (((Zneg XH), (fwd c)) :: (((Zpos XH), (fwd c)) :: [])))
+  in
+  app pushes caps
+
+(** val piece_moves_from : position -> n -> piece -> move list **)
+
+let piece_moves_from p s pc =
+  let cs = p.cells in
+  let c = p.stm in
+  let not_own = fun t -> negb (has_color cs c t) in
+  (match pc with
+   | Pawn -> pawn_moves_from p s
+   | Knight ->
+     map (fun t -> mk s t None) (filter not_own (offs s knight_offs))
+   | Bishop ->
+     map (fun t -> mk s t None)
+       (flat_map (fun d -> slide_targets cs c (ray d s)) bishop_dirs)
+   | Rook ->
+     map (fun t -> mk s t None)
+       (flat_map (fun d -> slide_targets cs c (ray d s)) rook_dirs)
+   | Queen ->
+     map (fun t -> mk s t None)
+       (flat_map (fun d -> slide_targets cs c (ray d s)) all_dirs)
+   | King -> map (fun t -> mk s t None) (filter not_own (offs s king_offs)))
+
+(** val pseudo : position -> move list **)
+
+let pseudo p =
+  app
+    (flat_map (fun s ->
+      match cell_at p.cells s with
+      | Some p0 ->
+        let (c, pc) = p0 in
+        if color_eqb c p.stm then piece_moves_from p s pc else []
+      | None -> []) sq_list) (castle_moves p)
+
+(** val make : position -> move -> position **)
+
+let make p m =
+  let cs = p.cells in
+  let c = p.stm in
+  let s = m.m_src in
+  let d = m.m_dst in
+  (match cell_at cs s with
+   | Some p0 ->
+     let (_, pc) = p0 in
+     let capture = occupied cs d in
+     let is_pawn = piece_eqb pc Pawn in
+     let is_king = piece_eqb pc King in
+     let ep_capture =
+       (&&) ((&&) is_pawn (negb (N.eqb (file_of s) (file_of d))))
+         (negb capture)
+     in
+     let castle =
+       (&&) is_king (N.eqb (absdiff (file_of s) (file_of d)) (Npos (XO XH)))
+     in
+     let placed = match m.m_promo with
+                  | Some q -> q
+                  | None -> pc in
+     let cs1 = cell_set (cell_set cs s None) d (Some (c, placed)) in
+     let cs2 =
+       if ep_capture
+       then cell_set cs1 (mk_sq (file_of d) (rank_of s)) None
+       else cs1
+     in
+     let cs3 =
+       if castle
+       then if N.eqb (file_of d) (Npos (XO (XI XH)))
+            then cell_set
+                   (cell_set cs2 (mk_sq (Npos (XI (XI XH))) (rank_of s)) None)
+                   (mk_sq (Npos (XI (XO XH))) (rank_of s)) (Some (c, Rook))
+            else cell_set (cell_set cs2 (mk_sq N0 (rank_of s)) None)
+                   (mk_sq (Npos (XI XH)) (rank_of s)) (Some (c, Rook))
+       else cs2
+     in
+     let touches = fun x -> (||) (N.eqb s x) (N.eqb d x) in
+     let double0 =
+       (&&) is_pawn (N.eqb (absdiff (rank_of s) (rank_of d)) (Npos (XO XH)))
+     in
+     { cells = cs3; stm = (opp0 c); cr_wk =
+     ((&&) ((&&) p.cr_wk (negb (touches (Npos (XO (XO XH))))))
+       (negb (touches (Npos (XI (XI XH)))))); cr_wq =
+     ((&&) ((&&) p.cr_wq (negb (touches (Npos (XO (XO XH))))))
+       (negb (touches N0))); cr_bk =
+     ((&&) ((&&) p.cr_bk (negb (touches (Npos (XO (XO (XI (XI (XI XH)))))))))
+       (negb (touches (Npos (XI (XI (XI (XI (XI XH))))))))); cr_bq =
+     ((&&) ((&&) p.cr_bq (negb (touches (Npos (XO (XO (XI (XI (XI XH)))))))))
+       (negb (touches (Npos (XO (XO (XO (XI (XI XH))))))))); epf =
+     (if double0 then Some (file_of s) else None); hm =
+     (if (||) is_pawn capture then N0 else N.add p.hm (Npos XH)); fm =
+     (match c with
+      | White -> p.fm
+      | Black -> N.add p.fm (Npos XH)) }
+   | None -> p)
+
+(** val legal : position -> move -> bool **)
+
+let legal p m =
+  negb (in_check_cells (make p m).cells p.stm)
+
+(** val legal_moves : position -> move list **)
+
+let legal_moves p =
+  filter (legal p) (pseudo p)
+
+(** val is_legal_move : position -> move -> bool **)
+
+let is_legal_move p m =
+  existsb (move_eqb m) (legal_moves p)
+
+(** val in_check : position -> bool **)
+
+let in_check p =
+  in_check_cells p.cells p.stm
+
+type status =
+| CheckMate
+| Draw
+| Check
+| Running
+
+(** val classify : position -> status **)
+
+let classify p =
+  let nomoves = match legal_moves p with
+                | [] -> true
+                | _ :: _ -> false in
+  if (&&) nomoves (in_check p)
+  then CheckMate
+  else if (||) nomoves (N.leb (Npos (XO (XO (XI (XO (XO (XI XH))))))) p.hm)
+       then Draw
+       else if in_check p then Check else Running
+
+(** val cell_eqb : cell -> cell -> bool **)
+
+let cell_eqb a b =
+  match a with
+  | Some p ->
+    let (c1, p1) = p in
+    (match b with
+     | Some p0 ->
+       let (c2, p2) = p0 in (&&) (color_eqb c1 c2) (piece_eqb p1 p2)
+     | None -> false)
+  | None -> (match b with
+             | Some _ -> false
+             | None -> true)
+
+(** val cells_eqb : cell list -> cell list -> bool **)
+
+let rec cells_eqb a b =
+  match a with
+  | [] -> (match b with
+           | [] -> true
+           | _ :: _ -> false)
+  | x :: r ->
+    (match b with
+     | [] -> false
+     | y :: r' -> (&&) (cell_eqb x y) (cells_eqb r r'))
+
+(** val optN_eqb : n option -> n option -> bool **)
+
+let optN_eqb a b =
+  match a with
+  | Some x -> (match b with
+               | Some y -> N.eqb x y
+               | None -> false)
+  | None -> (match b with
+             | Some _ -> false
+             | None -> true)
+
+(** val same_position : position -> position -> bool **)
+
+let same_position a b =
+  (&&)
+    ((&&)
+      ((&&)
+        ((&&)
+          ((&&) ((&&) (cells_eqb a.cells b.cells) (color_eqb a.stm b.stm))
+            (eqb a.cr_wk b.cr_wk)) (eqb a.cr_wq b.cr_wq))
+        (eqb a.cr_bk b.cr_bk)) (eqb a.cr_bq b.cr_bq)) (optN_eqb a.epf b.epf)
+
+(** val mirror_cell : cell -> cell **)
+
+let mirror_cell = function
+| Some p0 -> let (co, p) = p0 in Some ((opp0 co), p)
+| None -> None
+
+(** val mirror_sq : n -> n **)
+
+let mirror_sq s =
+  N.coq_lxor s (Npos (XO (XO (XO (XI (XI XH))))))
+
+(** val mirror : position -> position **)
+
+let mirror p =
+  { cells =
+    (map (fun s -> mirror_cell (cell_at p.cells (mirror_sq s))) sq_list);
+    stm = (opp0 p.stm); cr_wk = p.cr_bk; cr_wq = p.cr_bq; cr_bk = p.cr_wk;
+    cr_bq = p.cr_wq; epf = p.epf; hm = p.hm; fm = p.fm }
+
+(** val back_row : piece list **)
+
+let back_row =
+  Rook :: (Knight :: (Bishop :: (Queen :: (King :: (Bishop :: (Knight :: (Rook :: [])))))))
+
+(** val start_cells : cell list **)
+
+let start_cells =
+  app (map (fun pc -> Some (White, pc)) back_row)
+    (app (repeat (Some (White, Pawn)) (S (S (S (S (S (S (S (S O)))))))))
+      (app
+        (repeat None (S (S (S (S (S (S (S (S (S (S (S (S (S (S (S (S (S (S (S
+          (S (S (S (S (S (S (S (S (S (S (S (S (S
+          O)))))))))))))))))))))))))))))))))
+        (app (repeat (Some (Black, Pawn)) (S (S (S (S (S (S (S (S O)))))))))
+          (map (fun pc -> Some (Black, pc)) back_row))))
+
+(** val start_position : position **)
+
+let start_position =
+  { cells = start_cells; stm = White; cr_wk = true; cr_wq = true; cr_bk =
+    true; cr_bq = true; epf = None; hm = N0; fm = N0 }
+
+(** val count_cells : (cell -> bool) -> cell list -> n **)
+
+let count_cells f cs =
+  N.of_nat (length (filter f cs))
+
+(** val playable : position -> bool **)
+
+let playable p =
+  let cs = p.cells in
+  let cnt = fun c pc -> count_cells (fun x -> cell_eqb x (Some (c, pc))) cs in
+  let men = fun c ->
+    count_cells (fun x ->
+      match x with
+      | Some p0 -> let (c', _) = p0 in color_eqb c c'
+      | None -> false) cs
+  in
+  (&&)
+    ((&&)
+      ((&&)
+        ((&&)
+          ((&&)
+            ((&&)
+              ((&&)
+                ((&&)
+                  ((&&)
+                    ((&&)
+                      (Nat.eqb (length cs) (S (S (S (S (S (S (S (S (S (S (S
+                        (S (S (S (S (S (S (S (S (S (S (S (S (S (S (S (S (S (S
+                        (S (S (S (S (S (S (S (S (S (S (S (S (S (S (S (S (S (S
+                        (S (S (S (S (S (S (S (S (S (S (S (S (S (S (S (S (S
+                        O)))))))))))))))))))))))))))))))))))))))))))))))))))))))))))))))))
+                      (N.eqb (cnt White King) (Npos XH)))
+                    (N.eqb (cnt Black King) (Npos XH)))
+                  (N.leb (men White) (Npos (XO (XO (XO (XO XH)))))))
+                (N.leb (men Black) (Npos (XO (XO (XO (XO XH)))))))
+              (negb (in_check_cells cs (opp0 p.stm))))
+            ((||) (negb p.cr_wk)
+              ((&&) (is_piece cs White King (Npos (XO (XO XH))))
+                (is_piece cs White Rook (Npos (XI (XI XH)))))))
+          ((||) (negb p.cr_wq)
+            ((&&) (is_piece cs White King (Npos (XO (XO XH))))
+              (is_piece cs White Rook N0))))
+        ((||) (negb p.cr_bk)
+          ((&&) (is_piece cs Black King (Npos (XO (XO (XI (XI (XI XH)))))))
+            (is_piece cs Black Rook (Npos (XI (XI (XI (XI (XI XH))))))))))
+      ((||) (negb p.cr_bq)
+        ((&&) (is_piece cs Black King (Npos (XO (XO (XI (XI (XI XH)))))))
+          (is_piece cs Black Rook (Npos (XO (XO (XO (XI (XI XH))))))))))
+    (match p.epf with
+     | Some f ->
+       (&&)
+         ((&&) (N.ltb f (Npos (XO (XO (XO XH)))))
+           (negb (occupied cs (mk_sq f (ep_capture_rank p.stm)))))
+         (is_piece cs (opp0 p.stm) Pawn (mk_sq f (ep_pawn_rank p.stm)))
+     | None -> true)
+
+type board = { b_zob : n; b_turn : color; b_rights : n; b_ep : n option;
+               b_half : n; b_full : n; b_pinned : n; b_checkers : n;
+               b_white : n; b_black : n; b_pawn : n; b_knight : n;
+               b_bishop : n; b_rook : n; b_queen : n; b_king : n }
+
+(** val colors : board -> color -> n **)
+
+let colors b = function
+| White -> b.b_white
+| Black -> b.b_black
+
+(** val pieces : board -> piece -> n **)
+
+let pieces b = function
+| Pawn -> b.b_pawn
+| Knight -> b.b_knight
+| Bishop -> b.b_bishop
+| Rook -> b.b_rook
+| Queen -> b.b_queen
+| King -> b.b_king
+
+(** val all_occ : board -> n **)
+
+let all_occ b =
+  bb_or b.b_white b.b_black
+
+(** val set_color : board -> color -> n -> board **)
+
+let set_color b c v =
+  match c with
+  | White ->
+    { b_zob = b.b_zob; b_turn = b.b_turn; b_rights = b.b_rights; b_ep =
+      b.b_ep; b_half = b.b_half; b_full = b.b_full; b_pinned = b.b_pinned;
+      b_checkers = b.b_checkers; b_white = v; b_black = b.b_black; b_pawn =
+      b.b_pawn; b_knight = b.b_knight; b_bishop = b.b_bishop; b_rook =
+      b.b_rook; b_queen = b.b_queen; b_king = b.b_king }
+  | Black ->
+    { b_zob = b.b_zob; b_turn = b.b_turn; b_rights = b.b_rights; b_ep =
+      b.b_ep; b_half = b.b_half; b_full = b.b_full; b_pinned = b.b_pinned;
+      b_checkers = b.b_checkers; b_white = b.b_white; b_black = v; b_pawn =
+      b.b_pawn; b_knight = b.b_knight; b_bishop = b.b_bishop; b_rook =
+      b.b_rook; b_queen = b.b_queen; b_king = b.b_king }
+
+(** val set_piece : board -> piece -> n -> board **)
+
+let set_piece b p v =
+  let f = fun q -> if piece_eqb p q then v else pieces b q in
+  { b_zob = b.b_zob; b_turn = b.b_turn; b_rights = b.b_rights; b_ep = b.b_ep;
+  b_half = b.b_half; b_full = b.b_full; b_pinned = b.b_pinned; b_checkers =
+  b.b_checkers; b_white = b.b_white; b_black = b.b_black; b_pawn = (f Pawn);
+  b_knight = (f Knight); b_bishop = (f Bishop); b_rook = (f Rook); b_queen =
+  (f Queen); b_king = (f King) }
+
+(** val set_zob : board -> n -> board **)
+
+let set_zob b z0 =
+  { b_zob = z0; b_turn = b.b_turn; b_rights = b.b_rights; b_ep = b.b_ep;
+    b_half = b.b_half; b_full = b.b_full; b_pinned = b.b_pinned; b_checkers =
+    b.b_checkers; b_white = b.b_white; b_black = b.b_black; b_pawn =
+    b.b_pawn; b_knight = b.b_knight; b_bishop = b.b_bishop; b_rook =
+    b.b_rook; b_queen = b.b_queen; b_king = b.b_king }
+
+(** val set_meta :
+    board -> color -> n -> n option -> n -> n -> n -> n -> board **)
+
+let set_meta b turn rights ep half full pinned checkers =
+  { b_zob = b.b_zob; b_turn = turn; b_rights = rights; b_ep = ep; b_half =
+    half; b_full = full; b_pinned = pinned; b_checkers = checkers; b_white =
+    b.b_white; b_black = b.b_black; b_pawn = b.b_pawn; b_knight = b.b_knight;
+    b_bishop = b.b_bishop; b_rook = b.b_rook; b_queen = b.b_queen; b_king =
+    b.b_king }
+
+(** val set_pins : board -> n -> n -> board **)
+
+let set_pins b pinned checkers =
+  set_meta b b.b_turn b.b_rights b.b_ep b.b_half b.b_full pinned checkers
+
+(** val nthN0 : n list -> n -> n **)
+
+let nthN0 l i =
+  nth (N.to_nat i) l N0
+
+(** val zkey : n -> piece -> color -> n **)
+
+let zkey s p c =
+  nthN0 piece_zobrist_tbl
+    (N.add
+      (N.add
+        (N.mul (color_idx c) (Npos (XO (XO (XO (XO (XO (XO (XO (XI
+          XH)))))))))) (N.mul s (Npos (XO (XI XH))))) (piece_idx p))
+
+(** val zkey_turn : color -> n **)
+
+let zkey_turn c =
+  nthN0 turn_zobrist_tbl (color_idx c)
+
+(** val zkey_castle : n -> n **)
+
+let zkey_castle r =
+  nthN0 castle_zobrist_tbl r
+
+(** val zkey_ep : n -> n **)
+
+let zkey_ep f =
+  nthN0 ep_zobrist_tbl f
+
+(** val color_of : board -> n -> color option **)
+
+let color_of b s =
+  if contains b.b_white s
+  then Some White
+  else if contains b.b_black s then Some Black else None
+
+(** val piece_of_unchecked : board -> n -> piece **)
+
+let piece_of_unchecked b s =
+  if contains (bb_or (bb_or b.b_pawn b.b_knight) b.b_bishop) s
+  then if contains b.b_pawn s
+       then Pawn
+       else if contains b.b_knight s then Knight else Bishop
+  else if contains b.b_rook s
+       then Rook
+       else if contains b.b_queen s then Queen else King
+
+(** val piece_of : board -> n -> piece option **)
+
+let piece_of b s =
+  match color_of b s with
+  | Some _ -> Some (piece_of_unchecked b s)
+  | None -> None
+
+(** val raw_get : board -> n -> (color * piece) option **)
+
+let raw_get b s =
+  match color_of b s with
+  | Some c -> Some (c, (piece_of_unchecked b s))
+  | None -> None
+
+(** val raw_set_unchecked : board -> color -> piece -> n -> board **)
+
+let raw_set_unchecked b c p s =
+  set_piece (set_color b c (bb_with (colors b c) s)) p
+    (bb_with (pieces b p) s)
+
+(** val raw_remove : board -> color -> piece -> n -> board **)
+
+let raw_remove b c p s =
+  set_piece (set_color b c (cleared (colors b c) s)) p
+    (cleared (pieces b p) s)
+
+(** val raw_xor : board -> color -> piece -> n -> board **)
+
+let raw_xor b c p d =
+  set_piece (set_color b c (bb_xor (colors b c) d)) p (bb_xor (pieces b p) d)
+
+(** val has_kings : board -> bool **)
+
+let has_kings b =
+  let k = b.b_king in
+  (&&)
+    ((&&) (N.eqb (count k) (Npos (XO XH)))
+      (N.eqb (count (bb_and k b.b_white)) (Npos XH)))
+    (N.eqb (count (bb_and k b.b_black)) (Npos XH))
+
+(** val board_xor : board -> color -> piece -> n -> board **)
+
+let board_xor b c p d =
+  let b1 = raw_xor b c p d in
+  set_zob b1
+    (fold_left (fun z0 s -> N.coq_lxor z0 (zkey s p c)) (elements d) b1.b_zob)
+
+(** val cr_offset : side -> color -> n **)
+
+let cr_offset sd c =
+  N.add (side_idx sd) (N.mul (color_idx c) (Npos (XO XH)))
+
+(** val cr_contains : n -> side -> color -> bool **)
+
+let cr_contains r sd c =
+  N.testbit r (cr_offset sd c)
+
+(** val cr_contains_color : n -> color -> bool **)
+
+let cr_contains_color r c =
+  (||) (cr_contains r KingSide c) (cr_contains r QueenSide c)
+
+(** val cr_with : n -> side -> color -> n **)
+
+let cr_with r sd c =
+  N.coq_lor r (bit (cr_offset sd c))
+
+(** val cr_full : n **)
+
+let cr_full =
+  Npos (XI (XI (XI XH)))
+
+(** val cr_keep : color -> n -> n **)
+
+let cr_keep c s =
+  match c with
+  | White ->
+    if N.eqb s N0
+    then Npos (XI (XO (XI XH)))
+    else if N.eqb s (Npos (XO (XO XH)))
+         then Npos (XO (XO (XI XH)))
+         else if N.eqb s (Npos (XI (XI XH)))
+              then Npos (XO (XI (XI XH)))
+              else Npos (XI (XI (XI XH)))
+  | Black ->
+    if N.eqb s (Npos (XO (XO (XO (XI (XI XH))))))
+    then Npos (XI (XI XH))
+    else if N.eqb s (Npos (XO (XO (XI (XI (XI XH))))))
+         then Npos (XI XH)
+         else if N.eqb s (Npos (XI (XI (XI (XI (XI XH))))))
+              then Npos (XI (XI (XO XH)))
+              else Npos (XI (XI (XI XH)))
+
+(** val cr_remove_for_sq : n -> color -> n -> n **)
+
+let cr_remove_for_sq r c s =
+  N.coq_land r (cr_keep c s)
+
+(** val king_sq : board -> color -> n **)
+
+let king_sq b c =
+  tz64 (bb_and (colors b c) b.b_king)
+
+(** val zobrist : board -> n **)
+
+let zobrist b =
+  N.coq_lxor
+    (N.coq_lxor (N.coq_lxor b.b_zob (zkey_turn b.b_turn))
+      (match b.b_ep with
+       | Some f -> zkey_ep f
+       | None -> N0)) (zkey_castle b.b_rights)
+
+(** val in_check0 : board -> bool **)
+
+let in_check0 b =
+  any b.b_checkers
+
+(** val enpassant_pos : board -> n option **)
+
+let enpassant_pos b =
+  match b.b_ep with
+  | Some f ->
+    Some
+      (mk_sq f
+        (match b.b_turn with
+         | White -> Npos (XI (XO XH))
+         | Black -> Npos (XO XH)))
+  | None -> None
+
+(** val ep_capture_rank_of : color -> n **)
+
+let ep_capture_rank_of = function
+| White -> Npos (XI (XO XH))
+| Black -> Npos (XO XH)
+
+(** val ep_pawn_rank_of : color -> n **)
+
+let ep_pawn_rank_of = function
+| White -> Npos (XO (XO XH))
+| Black -> Npos (XI XH)
+
+(** val board_eqb : board -> board -> bool **)
+
+let board_eqb a b =
+  (&&)
+    ((&&)
+      ((&&)
+        ((&&)
+          ((&&)
+            ((&&)
+              ((&&)
+                ((&&)
+                  ((&&)
+                    ((&&) (color_eqb a.b_turn b.b_turn)
+                      (N.eqb a.b_rights b.b_rights))
+                    (match a.b_ep with
+                     | Some x ->
+                       (match b.b_ep with
+                        | Some y -> N.eqb x y
+                        | None -> false)
+                     | None ->
+                       (match b.b_ep with
+                        | Some _ -> false
+                        | None -> true))) (N.eqb a.b_white b.b_white))
+                (N.eqb a.b_black b.b_black)) (N.eqb a.b_pawn b.b_pawn))
+            (N.eqb a.b_knight b.b_knight)) (N.eqb a.b_bishop b.b_bishop))
+        (N.eqb a.b_rook b.b_rook)) (N.eqb a.b_queen b.b_queen))
+    (N.eqb a.b_king b.b_king)
+
+(** val board_all_eqb : board -> board -> bool **)
+
+let board_all_eqb a b =
+  (&&)
+    ((&&)
+      ((&&)
+        ((&&) ((&&) (board_eqb a b) (N.eqb a.b_zob b.b_zob))
+          (N.eqb a.b_half b.b_half)) (N.eqb a.b_full b.b_full))
+      (N.eqb a.b_pinned b.b_pinned)) (N.eqb a.b_checkers b.b_checkers)
+
+(** val scan_sliders : n -> n -> n list -> n * n **)
+
+let scan_sliders occ k sliders =
+  fold_left (fun acc s ->
+    let (pinned, checkers) = acc in
+    let btw = bb_and occ (between_geo k s) in
+    if none btw
+    then (pinned, (bb_with checkers s))
+    else if N.eqb (count btw) (Npos XH)
+         then ((bb_or pinned btw), checkers)
+         else (pinned, checkers)) sliders (N0, N0)
+
+(** val update_pin_info : board -> board **)
+
+let update_pin_info b =
+  let k = king_sq b b.b_turn in
+  let opp_bb = colors b (opp0 b.b_turn) in
+  let bishop_pinners = bb_and (bb_or b.b_bishop b.b_queen) (bishop_rays_geo k)
+  in
+  let rook_pinners = bb_and (bb_or b.b_rook b.b_queen) (rook_rays_geo k) in
+  let pinners = bb_and opp_bb (bb_or bishop_pinners rook_pinners) in
+  let (pinned, checkers) = scan_sliders (all_occ b) k (elements pinners) in
+  let checkers0 =
+    bb_or checkers (bb_and (bb_and (knight_geo k) b.b_knight) opp_bb)
+  in
+  let checkers1 =
+    bb_or checkers0
+      (bb_and (bb_and (pawn_att_geo b.b_turn k) b.b_pawn) opp_bb)
+  in
+  set_pins b pinned checkers1
+
+type verr =
+| MissingKings
+| InvalidCastleRights
+| InvalidEnpassant
+| TooManyPieces
+| OpponentInCheck
+
+(** val validate_en_passant : board -> bool **)
+
+let validate_en_passant b =
+  match b.b_ep with
+  | Some f ->
+    (match raw_get b (mk_sq f (ep_capture_rank_of b.b_turn)) with
+     | Some _ -> false
+     | None ->
+       (match raw_get b (mk_sq f (ep_pawn_rank_of b.b_turn)) with
+        | Some p0 ->
+          let (c, p) = p0 in
+          (&&) (negb (color_eqb c b.b_turn)) (piece_eqb p Pawn)
+        | None -> false))
+  | None -> true
+
+(** val get_is : board -> n -> color -> piece -> bool **)
+
+let get_is b s c p =
+  match raw_get b s with
+  | Some p0 -> let (c', p') = p0 in (&&) (color_eqb c c') (piece_eqb p p')
+  | None -> false
+
+(** val validate_castle_rights : board -> bool **)
+
+let validate_castle_rights b =
+  let r = b.b_rights in
+  (&&)
+    ((&&)
+      ((&&)
+        ((&&)
+          ((&&)
+            ((||) (negb (cr_contains r KingSide White))
+              (get_is b (Npos (XI (XI XH))) White Rook))
+            ((||) (negb (cr_contains r QueenSide White))
+              (get_is b N0 White Rook)))
+          ((||) (negb (cr_contains r KingSide Black))
+            (get_is b (Npos (XI (XI (XI (XI (XI XH)))))) Black Rook)))
+        ((||) (negb (cr_contains r QueenSide Black))
+          (get_is b (Npos (XO (XO (XO (XI (XI XH)))))) Black Rook)))
+      ((||) (negb (cr_contains_color r White))
+        (get_is b (Npos (XO (XO XH))) White King)))
+    ((||) (negb (cr_contains_color r Black))
+      (get_is b (Npos (XO (XO (XI (XI (XI XH)))))) Black King))
+
+(** val attackers_of : board -> color -> n -> n -> n **)
+
+let attackers_of b c s occ =
+  let cb = colors b c in
+  let sl =
+    bb_or
+      (bb_and (bb_and (bb_or b.b_bishop b.b_queen) cb) (bishop_attacks s occ))
+      (bb_and (bb_and (bb_or b.b_rook b.b_queen) cb) (rook_attacks s occ))
+  in
+  bb_or sl
+    (bb_or (bb_and (bb_and (knight_geo s) b.b_knight) cb)
+      (bb_or (bb_and (bb_and (king_geo s) b.b_king) cb)
+        (bb_and (bb_and (pawn_att_geo (opp0 c) s) b.b_pawn) cb)))
+
+(** val validate : board -> verr option **)
+
+let validate b =
+  if negb (has_kings b)
+  then Some MissingKings
+  else if (||) (N.ltb (Npos (XO (XO (XO (XO XH))))) (count b.b_white))
+            (N.ltb (Npos (XO (XO (XO (XO XH))))) (count b.b_black))
+       then Some TooManyPieces
+       else if negb (validate_en_passant b)
+            then Some InvalidEnpassant
+            else if negb (validate_castle_rights b)
+                 then Some InvalidCastleRights
+                 else if any
+                           (attackers_of b b.b_turn
+                             (king_sq b (opp0 b.b_turn)) (all_occ b))
+                      then Some OpponentInCheck
+                      else None
+
+(** val empty_board : board **)
+
+let empty_board =
+  { b_zob = N0; b_turn = White; b_rights = N0; b_ep = None; b_half = N0;
+    b_full = N0; b_pinned = N0; b_checkers = N0; b_white = N0; b_black = N0;
+    b_pawn = N0; b_knight = N0; b_bishop = N0; b_rook = N0; b_queen = N0;
+    b_king = N0 }
+
+(** val standard : board **)
+
+let standard =
+  { b_zob = (Npos (XI (XI (XO (XI (XI (XI (XO (XO (XO (XO (XI (XO (XI (XO (XI
+    (XO (XO (XO (XI (XO (XI (XO (XI (XO (XO (XI (XI (XO (XI (XI (XO (XI (XO
+    (XO (XO (XI (XI (XO (XO (XI (XI (XI (XI (XO (XO (XI (XO (XO (XI (XO (XO
+    (XI (XO (XO (XO (XI (XO (XI (XO (XO (XO (XO (XO
+    XH))))))))))))))))))))))))))))))))))))))))))))))))))))))))))))))));
+    b_turn = White; b_rights = cr_full; b_ep = None; b_half = N0; b_full =
+    N0; b_pinned = N0; b_checkers = N0; b_white = (Npos (XI (XI (XI (XI (XI
+    (XI (XI (XI (XI (XI (XI (XI (XI (XI (XI XH)))))))))))))))); b_black =
+    (Npos (XO (XO (XO (XO (XO (XO (XO (XO (XO (XO (XO (XO (XO (XO (XO (XO (XO
+    (XO (XO (XO (XO (XO (XO (XO (XO (XO (XO (XO (XO (XO (XO (XO (XO (XO (XO
+    (XO (XO (XO (XO (XO (XO (XO (XO (XO (XO (XO (XO (XO (XI (XI (XI (XI (XI
+    (XI (XI (XI (XI (XI (XI (XI (XI (XI (XI
+    XH))))))))))))))))))))))))))))))))))))))))))))))))))))))))))))))));
+    b_pawn = (Npos (XO (XO (XO (XO (XO (XO (XO (XO (XI (XI (XI (XI (XI (XI
+    (XI (XI (XO (XO (XO (XO (XO (XO (XO (XO (XO (XO (XO (XO (XO (XO (XO (XO
+    (XO (XO (XO (XO (XO (XO (XO (XO (XO (XO (XO (XO (XO (XO (XO (XO (XI (XI
+    (XI (XI (XI (XI (XI
+    XH)))))))))))))))))))))))))))))))))))))))))))))))))))))))); b_knight =
+    (Npos (XO (XI (XO (XO (XO (XO (XI (XO (XO (XO (XO (XO (XO (XO (XO (XO (XO
+    (XO (XO (XO (XO (XO (XO (XO (XO (XO (XO (XO (XO (XO (XO (XO (XO (XO (XO
+    (XO (XO (XO (XO (XO (XO (XO (XO (XO (XO (XO (XO (XO (XO (XO (XO (XO (XO
+    (XO (XO (XO (XO (XI (XO (XO (XO (XO
+    XH)))))))))))))))))))))))))))))))))))))))))))))))))))))))))))))));
+    b_bishop = (Npos (XO (XO (XI (XO (XO (XI (XO (XO (XO (XO (XO (XO (XO (XO
+    (XO (XO (XO (XO (XO (XO (XO (XO (XO (XO (XO (XO (XO (XO (XO (XO (XO (XO
+    (XO (XO (XO (XO (XO (XO (XO (XO (XO (XO (XO (XO (XO (XO (XO (XO (XO (XO
+    (XO (XO (XO (XO (XO (XO (XO (XO (XI (XO (XO
+    XH))))))))))))))))))))))))))))))))))))))))))))))))))))))))))))));
+    b_rook = (Npos (XI (XO (XO (XO (XO (XO (XO (XI (XO (XO (XO (XO (XO (XO
+    (XO (XO (XO (XO (XO (XO (XO (XO (XO (XO (XO (XO (XO (XO (XO (XO (XO (XO
+    (XO (XO (XO (XO (XO (XO (XO (XO (XO (XO (XO (XO (XO (XO (XO (XO (XO (XO
+    (XO (XO (XO (XO (XO (XO (XI (XO (XO (XO (XO (XO (XO
+    XH))))))))))))))))))))))))))))))))))))))))))))))))))))))))))))))));
+    b_queen = (Npos (XO (XO (XO (XI (XO (XO (XO (XO (XO (XO (XO (XO (XO (XO
+    (XO (XO (XO (XO (XO (XO (XO (XO (XO (XO (XO (XO (XO (XO (XO (XO (XO (XO
+    (XO (XO (XO (XO (XO (XO (XO (XO (XO (XO (XO (XO (XO (XO (XO (XO (XO (XO
+    (XO (XO (XO (XO (XO (XO (XO (XO (XO
+    XH)))))))))))))))))))))))))))))))))))))))))))))))))))))))))))); b_king =
+    (Npos (XO (XO (XO (XO (XI (XO (XO (XO (XO (XO (XO (XO (XO (XO (XO (XO (XO
+    (XO (XO (XO (XO (XO (XO (XO (XO (XO (XO (XO (XO (XO (XO (XO (XO (XO (XO
+    (XO (XO (XO (XO (XO (XO (XO (XO (XO (XO (XO (XO (XO (XO (XO (XO (XO (XO
+    (XO (XO (XO (XO (XO (XO (XO
+    XH))))))))))))))))))))))))))))))))))))))))))))))))))))))))))))) }
+
+type bop =
+| BTurn of color
+| BHalf of n
+| BFull of n
+| BEnpassant of n option
+| BPlace of n * color * piece
+| BRemove of n
+
+(** val bstep : board -> bop -> board * bool **)
+
+let bstep b = function
+| BTurn c ->
+  ((set_meta b c b.b_rights b.b_ep b.b_half b.b_full b.b_pinned b.b_checkers),
+    true)
+| BHalf n0 ->
+  ((set_meta b b.b_turn b.b_rights b.b_ep n0 b.b_full b.b_pinned b.b_checkers),
+    true)
+| BFull n0 ->
+  ((set_meta b b.b_turn b.b_rights b.b_ep b.b_half n0 b.b_pinned b.b_checkers),
+    true)
+| BEnpassant f ->
+  ((set_meta b b.b_turn b.b_rights f b.b_half b.b_full b.b_pinned
+     b.b_checkers), true)
+| BPlace (s, c, p) ->
+  if contains (all_occ b) s
+  then (b, false)
+  else let b1 = raw_set_unchecked b c p s in
+       ((set_zob b1 (N.coq_lxor b1.b_zob (zkey s p c))), true)
+| BRemove s ->
+  (match raw_get b s with
+   | Some p0 ->
+     let (c, p) = p0 in
+     let b1 = set_zob b (N.coq_lxor b.b_zob (zkey s p c)) in
+     ((raw_remove b1 c p s), true)
+   | None -> (b, true))
+
+(** val build : board -> (board, verr) sum **)
+
+let build b =
+  match validate b with
+  | Some e -> Inr e
+  | None -> Inl (update_pin_info b)
+
+(** val abs : board -> position **)
+
+let abs b =
+  { cells = (map (raw_get b) sq_list); stm = b.b_turn; cr_wk =
+    (cr_contains b.b_rights KingSide White); cr_wq =
+    (cr_contains b.b_rights QueenSide White); cr_bk =
+    (cr_contains b.b_rights KingSide Black); cr_bq =
+    (cr_contains b.b_rights QueenSide Black); epf = b.b_ep; hm = b.b_half;
+    fm = b.b_full }
+
+type entry = { e_src : n; e_moves : n; e_promo : bool }
+
+(** val check_mask : board -> bool -> n -> n **)
+
+let check_mask b is_in_check k =
+  if is_in_check
+  then bb_or (between_geo k (tz64 b.b_checkers)) b.b_checkers
+  else bb_full
+
+(** val pseudo_legals : piece -> n -> color -> n -> n -> n **)
+
+let pseudo_legals pc src c occ mask0 =
+  match pc with
+  | Pawn -> bb_and (pawn_moves_spec c src occ) mask0
+  | Knight -> bb_and (knight_geo src) mask0
+  | Bishop -> bb_and (bishop_attacks src occ) mask0
+  | Rook -> bb_and (rook_attacks src occ) mask0
+  | Queen ->
+    bb_and (bb_or (rook_attacks src occ) (bishop_attacks src occ)) mask0
+  | King -> bb_and (king_geo src) mask0
+
+(** val mk_entries : n list -> (n -> n) -> (n -> bool) -> entry list **)
+
+let mk_entries srcs f promo0 =
+  flat_map (fun src ->
+    let mv = f src in
+    if none mv
+    then []
+    else { e_src = src; e_moves = mv; e_promo = (promo0 src) } :: []) srcs
+
+(** val piece_legals : piece -> bool -> bool -> board -> n -> entry list **)
+
+let piece_legals pc can_move_if_pinned is_in_check b mask0 =
+  let occ = all_occ b in
+  let my = colors b b.b_turn in
+  let k = king_sq b b.b_turn in
+  let ps = bb_and (pieces b pc) my in
+  let cm = check_mask b is_in_check k in
+  let l1 =
+    mk_entries (elements (bb_and ps (bb_not b.b_pinned))) (fun src ->
+      bb_and (pseudo_legals pc src b.b_turn occ mask0) cm) (fun _ -> false)
+  in
+  if (||) is_in_check (negb can_move_if_pinned)
+  then l1
+  else app l1
+         (mk_entries (elements (bb_and ps b.b_pinned)) (fun src ->
+           bb_and (pseudo_legals pc src b.b_turn occ mask0) (line_geo src k))
+           (fun _ -> false))
+
+(** val is_legal_en_passant : board -> n -> n -> n -> n -> bool **)
+
+let is_legal_en_passant b src dest captured k =
+  let captured_bb = from_pos captured in
+  let opp_bb = bb_diff (colors b (opp0 b.b_turn)) captured_bb in
+  let steppers = bb_and (bb_or b.b_knight b.b_pawn) opp_bb in
+  if any (bb_and b.b_checkers steppers)
+  then false
+  else let occ =
+         bb_or (bb_diff (bb_diff (all_occ b) (from_pos src)) captured_bb)
+           (from_pos dest)
+       in
+       let bishops = bb_and (bb_or b.b_bishop b.b_queen) opp_bb in
+       let rooks = bb_and (bb_or b.b_rook b.b_queen) opp_bb in
+       none
+         (bb_or (bb_and (bishop_attacks k occ) bishops)
+           (bb_and (rook_attacks k occ) rooks))
+
+(** val adjacent_files : n -> n **)
+
+let adjacent_files f =
+  let fb = from_file f in bb_or (shift_left fb) (shift_right fb)
+
+(** val pawn_legals : bool -> board -> n -> entry list **)
+
+let pawn_legals is_in_check b mask0 =
+  let occ = all_occ b in
+  let c = b.b_turn in
+  let my = colors b c in
+  let k = king_sq b c in
+  let ps = bb_and b.b_pawn my in
+  let cm = check_mask b is_in_check k in
+  let seventh = match c with
+                | White -> Npos (XO (XI XH))
+                | Black -> Npos XH in
+  let promo0 = fun src -> N.eqb (rank_of src) seventh in
+  let l1 =
+    mk_entries (elements (bb_and ps (bb_not b.b_pinned))) (fun src ->
+      bb_and (pseudo_legals Pawn src c occ mask0) cm) promo0
+  in
+  let l2 =
+    if is_in_check
+    then []
+    else mk_entries (elements (bb_and ps b.b_pinned)) (fun src ->
+           bb_and (pseudo_legals Pawn src c occ mask0) (line_geo k src))
+           promo0
+  in
+  let l3 =
+    match b.b_ep with
+    | Some f ->
+      let rank = ep_pawn_rank_of c in
+      let dest = mk_sq f (ep_capture_rank_of c) in
+      let captured = mk_sq f rank in
+      flat_map (fun src ->
+        if is_legal_en_passant b src dest captured k
+        then { e_src = src; e_moves = (from_pos dest); e_promo = false } :: []
+        else [])
+        (elements (bb_and (bb_and (from_rank rank) (adjacent_files f)) ps))
+    | None -> []
+  in
+  app l1 (app l2 l3)
+
+(** val is_legal_king_position : board -> n -> bool **)
+
+let is_legal_king_position b kp =
+  let c = b.b_turn in
+  let opp_bb = colors b (opp0 c) in
+  let bishop_pinners =
+    bb_and (bb_or b.b_bishop b.b_queen) (bishop_rays_geo kp)
+  in
+  let rook_pinners = bb_and (bb_or b.b_rook b.b_queen) (rook_rays_geo kp) in
+  let pinners = bb_and opp_bb (bb_or bishop_pinners rook_pinners) in
+  let actual = bb_xor (from_pos (king_sq b c)) (from_pos kp) in
+  let occ = bb_xor (all_occ b) actual in
+  (&&)
+    (forallb (fun s -> any (bb_and occ (between_geo kp s)))
+      (elements pinners))
+    (none
+      (bb_or
+        (bb_or (bb_and (bb_and (king_geo kp) b.b_king) opp_bb)
+          (bb_and (bb_and (knight_geo kp) b.b_knight) opp_bb))
+        (bb_and (bb_and (pawn_att_geo c kp) b.b_pawn) opp_bb)))
+
+(** val bACKRANK_BB_of : color -> n **)
+
+let bACKRANK_BB_of c =
+  from_rank (match c with
+             | White -> N0
+             | Black -> Npos (XI (XI XH)))
+
+(** val cASTLE_MOVES_bb : n **)
+
+let cASTLE_MOVES_bb =
+  fold_left bb_with ((Npos (XO XH)) :: ((Npos (XO (XI (XO (XI (XI
+    XH)))))) :: ((Npos (XO (XO XH))) :: ((Npos (XO (XO (XI (XI (XI
+    XH)))))) :: ((Npos (XO (XI XH))) :: ((Npos (XO (XI (XI (XI (XI
+    XH)))))) :: [])))))) bb_empty
+
+(** val kINGSIDE_FILES : n **)
+
+let kINGSIDE_FILES =
+  bb_or (from_file (Npos (XI (XO XH)))) (from_file (Npos (XO (XI XH))))
+
+(** val qUEENSIDE_FILES : n **)
+
+let qUEENSIDE_FILES =
+  bb_or (bb_or (from_file (Npos XH)) (from_file (Npos (XO XH))))
+    (from_file (Npos (XI XH)))
+
+(** val qUEENSIDE_SAFE_FILES : n **)
+
+let qUEENSIDE_SAFE_FILES =
+  bb_or (from_file (Npos (XO XH))) (from_file (Npos (XI XH)))
+
+(** val king_legals : bool -> board -> color -> n -> entry list **)
+
+let king_legals is_in_check b turn mask0 =
+  let occ = all_occ b in
+  let k = king_sq b turn in
+  let ps = pseudo_legals King k turn occ mask0 in
+  let moves =
+    fold_left (fun mv d ->
+      if is_legal_king_position b d then mv else cleared mv d) (elements ps)
+      ps
+  in
+  let castle = fun sd files safe mv ->
+    if negb (cr_contains b.b_rights sd turn)
+    then mv
+    else let backrank = bACKRANK_BB_of turn in
+         let tiles = bb_and files backrank in
+         if none (bb_and tiles occ)
+         then if forallb (is_legal_king_position b)
+                   (elements (bb_and safe backrank))
+              then bb_xor mv (bb_and tiles cASTLE_MOVES_bb)
+              else mv
+         else mv
+  in
+  let moves0 =
+    if is_in_check
+    then moves
+    else castle QueenSide qUEENSIDE_FILES qUEENSIDE_SAFE_FILES
+           (castle KingSide kINGSIDE_FILES kINGSIDE_FILES moves)
+  in
+  if none moves0
+  then []
+  else { e_src = k; e_moves = moves0; e_promo = false } :: []
+
+(** val collect_moves : board -> n -> entry list **)
+
+let collect_moves b mask0 =
+  let mask1 = bb_and (bb_not (colors b b.b_turn)) mask0 in
+  if none b.b_checkers
+  then app (pawn_legals false b mask1)
+         (app (piece_legals Knight false false b mask1)
+           (app (piece_legals Bishop true false b mask1)
+             (app (piece_legals Rook true false b mask1)
+               (app (piece_legals Queen true false b mask1)
+                 (king_legals false b b.b_turn mask1)))))
+  else app
+         (if N.eqb (count b.b_checkers) (Npos XH)
+          then app (pawn_legals true b mask1)
+                 (app (piece_legals Knight false true b mask1)
+                   (app (piece_legals Bishop true true b mask1)
+                     (app (piece_legals Rook true true b mask1)
+                       (piece_legals Queen true true b mask1))))
+          else []) (king_legals true b b.b_turn mask1)
+
+type movegen = { g_moves : entry list; g_promo : n; g_mask : n; g_index : nat }
+
+(** val mg_new : entry list -> n -> movegen **)
+
+let mg_new entries mask0 =
+  { g_moves = entries; g_promo = N0; g_mask = mask0; g_index = O }
+
+(** val legals_gen : board -> movegen **)
+
+let legals_gen b =
+  mg_new (collect_moves b bb_full) bb_full
+
+(** val legals_masked_gen : board -> n -> movegen **)
+
+let legals_masked_gen b mask0 =
+  mg_new (collect_moves b mask0) mask0
+
+(** val live : movegen -> entry -> bool **)
+
+let live g0 e =
+  any (bb_and e.e_moves g0.g_mask)
+
+(** val mg_is_empty : movegen -> bool **)
+
+let mg_is_empty g0 =
+  forallb (fun e -> negb (live g0 e)) (skipn g0.g_index g0.g_moves)
+
+(** val mg_len : movegen -> n **)
+
+let mg_len g0 =
+  fst
+    (fold_left (fun acc e ->
+      let (len, inprog) = acc in
+      let cnt = count (bb_and e.e_moves g0.g_mask) in
+      if N.eqb cnt N0
+      then (len, inprog)
+      else ((N.add len
+              (if e.e_promo
+               then N.sub (N.mul cnt (Npos (XO (XO XH)))) inprog
+               else cnt)), N0)) (skipn g0.g_index g0.g_moves) (N0,
+      g0.g_promo))
+
+(** val mg_remove : movegen -> n -> movegen **)
+
+let mg_remove g0 m =
+  { g_moves =
+    (map (fun e -> { e_src = e.e_src; e_moves = (bb_diff e.e_moves m);
+      e_promo = e.e_promo }) g0.g_moves); g_promo = g0.g_promo; g_mask =
+    g0.g_mask; g_index = g0.g_index }
+
+(** val mg_remove_move : movegen -> move -> movegen * bool **)
+
+let mg_remove_move g0 m =
+  ({ g_moves =
+    (map (fun e ->
+      if N.eqb e.e_src m.m_src
+      then { e_src = e.e_src; e_moves = (cleared e.e_moves m.m_dst);
+             e_promo = e.e_promo }
+      else e) g0.g_moves); g_promo = g0.g_promo; g_mask = g0.g_mask;
+    g_index = g0.g_index },
+    (existsb (fun e -> N.eqb e.e_src m.m_src) g0.g_moves))
+
+(** val swap_front : nat -> entry list -> nat -> nat -> n -> entry list **)
+
+let rec swap_front fuel l i j mask0 =
+  match fuel with
+  | O -> l
+  | S f ->
+    (match nth_error l i with
+     | Some ei ->
+       if any (bb_and ei.e_moves mask0)
+       then let l' =
+              if Nat.eqb i j
+              then l
+              else (match nth_error l j with
+                    | Some ej -> set_nth (set_nth l i ej) j ei
+                    | None -> l)
+            in
+            swap_front f l' (S i) (S j) mask0
+       else swap_front f l (S i) j mask0
+     | None -> l)
+
+(** val mg_set_mask : movegen -> n -> movegen **)
+
+let mg_set_mask g0 mask0 =
+  { g_moves = (swap_front (S (length g0.g_moves)) g0.g_moves O O mask0);
+    g_promo = g0.g_promo; g_mask = mask0; g_index = O }
+
+(** val promo_at : n -> piece **)
+
+let promo_at = function
+| N0 -> Queen
+| Npos p ->
+  (match p with
+   | XI _ -> Knight
+   | XO p0 -> (match p0 with
+               | XH -> Bishop
+               | _ -> Knight)
+   | XH -> Rook)
+
+(** val skip_dead : movegen -> entry list -> nat -> nat **)
+
+let rec skip_dead g0 l i =
+  match l with
+  | [] -> i
+  | e :: r -> if live g0 e then i else skip_dead g0 r (S i)
+
+(** val set_entry : movegen -> nat -> entry -> n -> nat -> movegen **)
+
+let set_entry g0 i e promo0 index =
+  { g_moves = (set_nth g0.g_moves i e); g_promo = promo0; g_mask = g0.g_mask;
+    g_index = index }
+
+(** val mg_next : movegen -> move option * movegen **)
+
+let mg_next g0 =
+  let i = skip_dead g0 (skipn g0.g_index g0.g_moves) g0.g_index in
+  let g1 = { g_moves = g0.g_moves; g_promo = g0.g_promo; g_mask = g0.g_mask;
+    g_index = i }
+  in
+  (match nth_error g0.g_moves i with
+   | Some e ->
+     let masked = bb_and e.e_moves g0.g_mask in
+     let dest = tz64 masked in
+     let rest = bb_xor masked (from_pos dest) in
+     if e.e_promo
+     then let mv = { m_src = e.e_src; m_dst = dest; m_promo = (Some
+            (promo_at g0.g_promo)) }
+          in
+          if N.eqb g0.g_promo (Npos (XI XH))
+          then let e' = { e_src = e.e_src; e_moves =
+                 (cleared e.e_moves dest); e_promo = true }
+               in
+               ((Some mv),
+               (set_entry g0 i e' N0
+                 (if none (bb_and rest g0.g_mask) then S i else i)))
+          else ((Some mv), (set_entry g0 i e (N.add g0.g_promo (Npos XH)) i))
+     else let e' = { e_src = e.e_src; e_moves = (cleared e.e_moves dest);
+            e_promo = false }
+          in
+          ((Some { m_src = e.e_src; m_dst = dest; m_promo = None }),
+          (set_entry g0 i e' g0.g_promo (if none rest then S i else i)))
+   | None -> (None, g1))
+
+(** val mg_drain_fuel : nat -> movegen -> move list **)
+
+let rec mg_drain_fuel fuel g0 =
+  match fuel with
+  | O -> []
+  | S f ->
+    let (o, g') = mg_next g0 in
+    (match o with
+     | Some m -> m :: (mg_drain_fuel f g')
+     | None -> [])
+
+(** val mg_drain : movegen -> move list **)
+
+let mg_drain g0 =
+  mg_drain_fuel (S (S (S (S (S (S (S (S (S (S (S (S (S (S (S (S (S (S (S (S
+    (S (S (S (S (S (S (S (S (S (S (S (S (S (S (S (S (S (S (S (S (S (S (S (S
+    (S (S (S (S (S (S (S (S (S (S (S (S (S (S (S (S (S (S (S (S (S (S (S (S
+    (S (S (S (S (S (S (S (S (S (S (S (S (S (S (S (S (S (S (S (S (S (S (S (S
+    (S (S (S (S (S (S (S (S (S (S (S (S (S (S (S (S (S (S (S (S (S (S (S (S
+    (S (S (S (S (S (S (S (S (S (S (S (S (S (S (S (S (S (S (S (S (S (S (S (S
+    (S (S (S (S (S (S (S (S (S (S (S (S (S (S (S (S (S (S (S (S (S (S (S (S
+    (S (S (S (S (S (S (S (S (S (S (S (S (S (S (S (S (S (S (S (S (S (S (S (S
+    (S (S (S (S (S (S (S (S (S (S (S (S (S (S (S (S (S (S (S (S (S (S (S (S
+    (S (S (S (S (S (S (S (S (S (S (S (S (S (S (S (S (S (S (S (S (S (S (S (S
+    (S (S (S (S (S (S (S (S (S (S (S (S (S (S (S (S (S (S (S (S (S (S (S (S
+    (S (S (S (S (S (S (S (S (S (S (S (S (S (S (S (S (S (S (S (S (S (S (S (S
+    (S (S (S (S (S (S (S (S (S (S (S (S (S (S (S (S (S (S (S (S (S (S (S (S
+    (S (S (S (S (S (S (S (S (S (S (S (S (S (S (S (S (S (S (S (S (S (S (S (S
+    (S (S (S (S (S (S (S (S (S (S (S (S (S (S (S (S (S (S (S (S (S (S (S (S
+    (S (S (S (S (S (S (S (S (S (S (S (S (S (S (S (S (S (S (S (S (S (S (S (S
+    (S (S (S (S (S (S (S (S (S (S (S (S (S (S (S (S (S (S (S (S
+    O))))))))))))))))))))))))))))))))))))))))))))))))))))))))))))))))))))))))))))))))))))))))))))))))))))))))))))))))))))))))))))))))))))))))))))))))))))))))))))))))))))))))))))))))))))))))))))))))))))))))))))))))))))))))))))))))))))))))))))))))))))))))))))))))))))))))))))))))))))))))))))))))))))))))))))))))))))))))))))))))))))))))))))))))))))))))))))))))))))))))))))))))))))))))))))))))))))))))))))))))
+    g0
+
+(** val legals : board -> move list **)
+
+let legals b =
+  mg_drain (legals_gen b)
+
+(** val is_legal : board -> move -> bool **)
+
+let is_legal b m =
+  existsb (move_eqb m) (legals b)
+
+(** val sat16 : n -> n **)
+
+let sat16 x =
+  if N.ltb (Npos (XI (XI (XI (XI (XI (XI (XI (XI (XI (XI (XI (XI (XI (XI (XI
+       XH)))))))))))))))) x
+  then Npos (XI (XI (XI (XI (XI (XI (XI (XI (XI (XI (XI (XI (XI (XI (XI
+         XH)))))))))))))))
+  else x
+
+(** val set_half : board -> n -> board **)
+
+let set_half b h =
+  set_meta b b.b_turn b.b_rights b.b_ep h b.b_full b.b_pinned b.b_checkers
+
+(** val set_full : board -> n -> board **)
+
+let set_full b f =
+  set_meta b b.b_turn b.b_rights b.b_ep b.b_half f b.b_pinned b.b_checkers
+
+(** val set_ep : board -> n option -> board **)
+
+let set_ep b e =
+  set_meta b b.b_turn b.b_rights e b.b_half b.b_full b.b_pinned b.b_checkers
+
+(** val set_rights : board -> n -> board **)
+
+let set_rights b r =
+  set_meta b b.b_turn r b.b_ep b.b_half b.b_full b.b_pinned b.b_checkers
+
+(** val set_checkers : board -> n -> board **)
+
+let set_checkers b c =
+  set_pins b b.b_pinned c
+
+(** val apply : board -> move -> board **)
+
+let apply self mv =
+  let turn = self.b_turn in
+  let out =
+    set_meta self (opp0 turn) self.b_rights None self.b_half self.b_full N0 N0
+  in
+  let source_bb = from_pos mv.m_src in
+  let dest_bb = from_pos mv.m_dst in
+  let mv_bb = bb_xor source_bb dest_bb in
+  let pc = piece_of_unchecked self mv.m_src in
+  let captured = piece_of self mv.m_dst in
+  let out0 = board_xor out turn pc mv_bb in
+  let out1 =
+    match captured with
+    | Some cp -> set_half (board_xor out0 (opp0 turn) cp dest_bb) N0
+    | None -> set_half out0 (sat16 (N.add out0.b_half (Npos XH)))
+  in
+  let out2 = set_full out1 (sat16 (N.add out1.b_full (color_idx turn))) in
+  let out3 =
+    set_rights out2
+      (cr_remove_for_sq (cr_remove_for_sq out2.b_rights (opp0 turn) mv.m_dst)
+        turn mv.m_src)
+  in
+  let opp_king = king_sq self (opp0 turn) in
+  let castles =
+    (&&) (piece_eqb pc King) (N.eqb (bb_and mv_bb cASTLE_MOVES_bb) mv_bb)
+  in
+  let out4 =
+    match pc with
+    | Pawn ->
+      let out4 = set_half out3 N0 in
+      let out5 =
+        match mv.m_promo with
+        | Some promotion ->
+          let out5 =
+            if piece_eqb promotion Knight
+            then set_checkers out4
+                   (bb_xor out4.b_checkers
+                     (bb_and (knight_geo opp_king) dest_bb))
+            else out4
+          in
+          board_xor (board_xor out5 turn Pawn dest_bb) turn promotion dest_bb
+        | None ->
+          if N.eqb
+               (bb_and mv_bb
+                 (match turn with
+                  | White ->
+                    bb_or (from_rank (Npos XH)) (from_rank (Npos (XI XH)))
+                  | Black ->
+                    bb_or (from_rank (Npos (XO (XO XH))))
+                      (from_rank (Npos (XO (XI XH)))))) mv_bb
+          then set_ep out4 (Some (file_of mv.m_dst))
+          else (match enpassant_pos self with
+                | Some ep ->
+                  if N.eqb mv.m_dst ep
+                  then board_xor out4 (opp0 turn) Pawn
+                         (from_pos
+                           (mk_sq (file_of mv.m_dst) (ep_pawn_rank_of turn)))
+                  else out4
+                | None -> out4)
+      in
+      (match mv.m_promo with
+       | Some _ -> out5
+       | None ->
+         set_checkers out5
+           (bb_xor out5.b_checkers
+             (bb_and (pawn_att_geo (opp0 turn) opp_king) dest_bb)))
+    | Knight ->
+      set_checkers out3
+        (bb_xor out3.b_checkers (bb_and (knight_geo opp_king) dest_bb))
+    | _ ->
+      if castles
+      then let rook_mv =
+             bb_and (bACKRANK_BB_of turn)
+               (if N.ltb (file_of mv.m_dst) (Npos (XO (XO XH)))
+                then bb_or (from_file N0) (from_file (Npos (XI XH)))
+                else bb_or (from_file (Npos (XI (XI XH))))
+                       (from_file (Npos (XI (XO XH)))))
+           in
+           board_xor out3 turn Rook rook_mv
+      else out3
+  in
+  let mine = colors out4 turn in
+  let bishops = bb_or out4.b_bishop out4.b_queen in
+  let rooks = bb_or out4.b_rook out4.b_queen in
+  let attackers =
+    bb_or (bb_and (bb_and bishops mine) (bishop_rays_geo opp_king))
+      (bb_and (bb_and rooks mine) (rook_rays_geo opp_king))
+  in
+  let occ = all_occ out4 in
+  let (pinned, checkers) =
+    fold_left (fun acc a ->
+      let (pn, ck) = acc in
+      let btw = bb_and occ (between_geo opp_king a) in
+      if none btw
+      then (pn, (bb_with ck a))
+      else if N.eqb (count btw) (Npos XH)
+           then ((bb_xor pn btw), ck)
+           else (pn, ck)) (elements attackers) (out4.b_pinned,
+      out4.b_checkers)
+  in
+  set_pins out4 pinned checkers
+
+type gstate =
+| GCheckMate
+| GStaleMate
+| GCheck
+| GRunning
+
+(** val state : board -> gstate **)
+
+let state b =
+  let nomoves = mg_is_empty (legals_gen b) in
+  let chk = in_check0 b in
+  if (&&) nomoves chk
+  then GCheckMate
+  else if (||) nomoves
+            (N.leb (Npos (XO (XO (XI (XO (XO (XI XH))))))) b.b_half)
+       then GStaleMate
+       else if chk then GCheck else GRunning
+
+type ws_kind =
+| WsPieces
+| WsTurn
+| WsCastleRights
+| WsEnpassant
+| WsHalfMoveClock
+
+type perr =
+| InvalidPiece of n * n
+| MissingPiece of n
+| MissingWhitespace of ws_kind
+| InvalidTurn of n
+| MissingTurn
+| FileOutOfBounds of n
+| InvalidEnpassantE of n * n
+| MissingEnpassant
+| MissingCastleRights
+| MissingHalfClock
+| MissingFullClock
+| TrailingBytes
+| BoardValidation of verr
+
+type presult =
+| POk of board
+| PErr of perr
+
+(** val parse_piece_byte : n -> (color * piece, n) sum option **)
+
+let parse_piece_byte x =
+  if N.eqb x (Npos (XO (XO (XO (XO (XI (XI XH)))))))
+  then Some (Inl (Black, Pawn))
+  else if N.eqb x (Npos (XO (XI (XI (XI (XO (XI XH)))))))
+       then Some (Inl (Black, Knight))
+       else if N.eqb x (Npos (XO (XI (XO (XO (XO (XI XH)))))))
+            then Some (Inl (Black, Bishop))
+            else if N.eqb x (Npos (XO (XI (XO (XO (XI (XI XH)))))))
+                 then Some (Inl (Black, Rook))
+                 else if N.eqb x (Npos (XI (XO (XO (XO (XI (XI XH)))))))
+                      then Some (Inl (Black, Queen))
+                      else if N.eqb x (Npos (XI (XI (XO (XI (XO (XI XH)))))))
+                           then Some (Inl (Black, King))
+                           else if N.eqb x (Npos (XO (XO (XO (XO (XI (XO
+                                     XH)))))))
+                                then Some (Inl (White, Pawn))
+                                else if N.eqb x (Npos (XO (XI (XI (XI (XO (XO
+                                          XH)))))))
+                                     then Some (Inl (White, Knight))
+                                     else if N.eqb x (Npos (XO (XI (XO (XO
+                                               (XO (XO XH)))))))
+                                          then Some (Inl (White, Bishop))
+                                          else if N.eqb x (Npos (XO (XI (XO
+                                                    (XO (XI (XO XH)))))))
+                                               then Some (Inl (White, Rook))
+                                               else if N.eqb x (Npos (XI (XO
+                                                         (XO (XO (XI (XO
+                                                         XH)))))))
+                                                    then Some (Inl (White,
+                                                           Queen))
+                                                    else if N.eqb x (Npos (XI
+                                                              (XI (XO (XI (XO
+                                                              (XO XH)))))))
+                                                         then Some (Inl
+                                                                (White, King))
+                                                         else if (&&)
+                                                                   (N.leb
+                                                                    (Npos (XI
+                                                                    (XO (XO
+                                                                    (XO (XI
+                                                                    XH))))))
+                                                                    x)
+                                                                   (N.leb x
+                                                                    (Npos (XO
+                                                                    (XO (XO
+                                                                    (XI (XI
+                                                                    XH)))))))
+                                                              then Some (Inr
+                                                                    (N.sub x
+                                                                    (Npos (XO
+                                                                    (XO (XO
+                                                                    (XO (XI
+                                                                    XH))))))))
+                                                              else None
+
+(** val placement :
+    n list -> n -> n -> board -> (perr, board * n list) sum outcome **)
+
+let rec placement s file rank b =
+  if N.leb (Npos (XO (XO (XO XH)))) file
+  then Trap
+  else let pos = mk_sq file rank in
+       (match s with
+        | [] -> Ret (Inl (MissingPiece pos))
+        | x :: rest ->
+          let after = fun file' b' k ->
+            if N.leb file' (Npos (XI (XI XH)))
+            then k file' rank b'
+            else if N.eqb file' (Npos (XO (XO (XO XH))))
+                 then if N.eqb rank N0
+                      then Ret (Inr (b', rest))
+                      else k N0 (N.sub rank (Npos XH)) b'
+                 else Ret (Inl (FileOutOfBounds rank))
+          in
+          (match parse_piece_byte x with
+           | Some s0 ->
+             (match s0 with
+              | Inl p0 ->
+                let (c, p) = p0 in
+                let b1 = raw_set_unchecked b c p pos in
+                let b2 = set_zob b1 (N.coq_lxor b1.b_zob (zkey pos p c)) in
+                after (N.add file (Npos XH)) b2 (fun f r bb ->
+                  placement rest f r bb)
+              | Inr d ->
+                after (N.add file d) b (fun f r bb -> placement rest f r bb))
+           | None ->
+             if N.eqb x (Npos (XI (XI (XI (XI (XO XH))))))
+             then after file b (fun f r bb -> placement rest f r bb)
+             else if N.eqb x (Npos (XO (XO (XO (XO (XO XH))))))
+                  then placement rest file rank b
+                  else Ret (Inl (InvalidPiece (x, pos)))))
+
+(** val skip_spaces : n list -> n list **)
+
+let rec skip_spaces s = match s with
+| [] -> s
+| x :: r ->
+  if N.eqb x (Npos (XO (XO (XO (XO (XO XH)))))) then skip_spaces r else s
+
+(** val parse_whitespace : n list -> ws_kind -> (perr, n list) sum **)
+
+let parse_whitespace s k =
+  match s with
+  | [] -> Inl (MissingWhitespace k)
+  | x :: r ->
+    if N.eqb x (Npos (XO (XO (XO (XO (XO XH))))))
+    then Inr (skip_spaces r)
+    else Inl (MissingWhitespace k)
+
+(** val parse_flag : n list -> n -> bool * n list **)
+
+let parse_flag s b =
+  match s with
+  | [] -> (false, s)
+  | x :: r -> if N.eqb x b then (true, r) else (false, s)
+
+(** val parse_digits : nat -> n list -> n -> n * n list **)
+
+let rec parse_digits n0 s acc =
+  match n0 with
+  | O -> (acc, s)
+  | S n' ->
+    (match s with
+     | [] -> (acc, s)
+     | d :: r ->
+       if (&&) (N.leb (Npos (XO (XO (XO (XO (XI XH)))))) d)
+            (N.leb d (Npos (XI (XO (XO (XI (XI XH)))))))
+       then parse_digits n' r
+              (N.add (N.mul acc (Npos (XO (XI (XO XH)))))
+                (N.sub d (Npos (XO (XO (XO (XO (XI XH))))))))
+       else (acc, s))
+
+(** val parse_number : n list -> (n * n list) option **)
+
+let parse_number s = match s with
+| [] -> None
+| d :: _ ->
+  if (&&) (N.leb (Npos (XO (XO (XO (XO (XI XH)))))) d)
+       (N.leb d (Npos (XI (XO (XO (XI (XI XH)))))))
+  then Some (parse_digits (S (S (S (S O)))) s N0)
+  else None
+
+(** val is_empty_list : 'a1 list -> bool **)
+
+let is_empty_list = function
+| [] -> true
+| _ :: _ -> false
+
+(** val parse_fen_t : n list -> presult outcome **)
+
+let parse_fen_t s =
+  match placement s N0 (Npos (XI (XI XH))) empty_board with
+  | Ret a ->
+    (match a with
+     | Inl e -> Ret (PErr e)
+     | Inr p ->
+       let (raw, s0) = p in
+       (match parse_whitespace s0 WsPieces with
+        | Inl e -> Ret (PErr e)
+        | Inr s1 ->
+          (match s1 with
+           | [] -> Ret (PErr MissingTurn)
+           | t :: s2 ->
+             if negb
+                  ((||) (N.eqb t (Npos (XO (XI (XO (XO (XO (XI XH))))))))
+                    (N.eqb t (Npos (XI (XI (XI (XO (XI (XI XH)))))))))
+             then Ret (PErr (InvalidTurn t))
+             else let turn =
+                    if N.eqb t (Npos (XO (XI (XO (XO (XO (XI XH)))))))
+                    then Black
+                    else White
+                  in
+                  (match parse_whitespace s2 WsTurn with
+                   | Inl e -> Ret (PErr e)
+                   | Inr s3 ->
+                     let (wk, s4) =
+                       parse_flag s3 (Npos (XI (XI (XO (XI (XO (XO XH)))))))
+                     in
+                     let (wq, s5) =
+                       parse_flag s4 (Npos (XI (XO (XO (XO (XI (XO XH)))))))
+                     in
+                     let (bk, s6) =
+                       parse_flag s5 (Npos (XI (XI (XO (XI (XO (XI XH)))))))
+                     in
+                     let (bq, s7) =
+                       parse_flag s6 (Npos (XI (XO (XO (XO (XI (XI XH)))))))
+                     in
+                     let r = N0 in
+                     let r0 = if wk then cr_with r KingSide White else r in
+                     let r1 = if wq then cr_with r0 QueenSide White else r0 in
+                     let r2 = if bk then cr_with r1 KingSide Black else r1 in
+                     let r3 = if bq then cr_with r2 QueenSide Black else r2 in
+                     let dash =
+                       if (||) ((||) ((||) wk wq) bk) bq
+                       then Some s7
+                       else (match s7 with
+                             | [] -> None
+                             | x :: s' ->
+                               if N.eqb x (Npos (XI (XO (XI (XI (XO XH))))))
+                               then Some s'
+                               else None)
+                     in
+                     (match dash with
+                      | Some s8 ->
+                        (match parse_whitespace s8 WsCastleRights with
+                         | Inl e -> Ret (PErr e)
+                         | Inr s9 ->
+                           let ep =
+                             match s9 with
+                             | [] -> Inl MissingEnpassant
+                             | f :: l ->
+                               (match l with
+                                | [] ->
+                                  if N.eqb f (Npos (XI (XO (XI (XI (XO
+                                       XH))))))
+                                  then Inr (None, [])
+                                  else Inl MissingEnpassant
+                                | rk :: s' ->
+                                  if (&&)
+                                       ((&&)
+                                         (N.leb (Npos (XI (XO (XO (XO (XO (XI
+                                           XH))))))) f)
+                                         (N.leb f (Npos (XO (XO (XO (XI (XO
+                                           (XI XH)))))))))
+                                       ((||)
+                                         (N.eqb rk (Npos (XI (XI (XO (XO (XI
+                                           XH)))))))
+                                         (N.eqb rk (Npos (XO (XI (XI (XO (XI
+                                           XH))))))))
+                                  then if N.eqb rk
+                                            (match turn with
+                                             | White ->
+                                               Npos (XO (XI (XI (XO (XI
+                                                 XH)))))
+                                             | Black ->
+                                               Npos (XI (XI (XO (XO (XI
+                                                 XH))))))
+                                       then Inr ((Some
+                                              (N.sub f (Npos (XI (XO (XO (XO
+                                                (XO (XI XH))))))))), s')
+                                       else Inl (InvalidEnpassantE (f, rk))
+                                  else if N.eqb f (Npos (XI (XO (XI (XI (XO
+                                            XH))))))
+                                       then Inr (None, (rk :: s'))
+                                       else Inl (InvalidEnpassantE (f, rk)))
+                           in
+                           (match ep with
+                            | Inl e -> Ret (PErr e)
+                            | Inr p0 ->
+                              let (epv, s10) = p0 in
+                              (match parse_whitespace s10 WsEnpassant with
+                               | Inl e -> Ret (PErr e)
+                               | Inr s11 ->
+                                 (match parse_number s11 with
+                                  | Some p1 ->
+                                    let (half, s12) = p1 in
+                                    (match parse_whitespace s12
+                                             WsHalfMoveClock with
+                                     | Inl e -> Ret (PErr e)
+                                     | Inr s13 ->
+                                       (match parse_number s13 with
+                                        | Some p2 ->
+                                          let (full, s14) = p2 in
+                                          let b =
+                                            set_meta raw turn r3 epv half
+                                              full N0 N0
+                                          in
+                                          (match validate b with
+                                           | Some e ->
+                                             Ret (PErr (BoardValidation e))
+                                           | None ->
+                                             if is_empty_list s14
+                                             then Ret (POk
+                                                    (update_pin_info b))
+                                             else Ret (PErr TrailingBytes))
+                                        | None -> Ret (PErr MissingFullClock)))
+                                  | None -> Ret (PErr MissingHalfClock)))))
+                      | None -> Ret (PErr MissingCastleRights))))))
+  | Trap -> Trap
+
+(** val dec_digits : nat -> n -> n list -> n list **)
+
+let rec dec_digits fuel n0 acc =
+  match fuel with
+  | O -> acc
+  | S f ->
+    let acc' =
+      (N.add (Npos (XO (XO (XO (XO (XI XH))))))
+        (N.modulo n0 (Npos (XO (XI (XO XH)))))) :: acc
+    in
+    if N.eqb (N.div n0 (Npos (XO (XI (XO XH))))) N0
+    then acc'
+    else dec_digits f (N.div n0 (Npos (XO (XI (XO XH))))) acc'
+
+(** val show_dec : n -> n list **)
+
+let show_dec n0 =
+  dec_digits (S (S (S (S (S (S (S (S (S (S (S (S (S (S (S (S (S (S (S (S
+    O)))))))))))))))))))) n0 []
+
+(** val piece_char : color -> piece -> n **)
+
+let piece_char c p =
+  let up =
+    match p with
+    | Pawn -> Npos (XO (XO (XO (XO (XI (XO XH))))))
+    | Knight -> Npos (XO (XI (XI (XI (XO (XO XH))))))
+    | Bishop -> Npos (XO (XI (XO (XO (XO (XO XH))))))
+    | Rook -> Npos (XO (XI (XO (XO (XI (XO XH))))))
+    | Queen -> Npos (XI (XO (XO (XO (XI (XO XH))))))
+    | King -> Npos (XI (XI (XO (XI (XO (XO XH))))))
+  in
+  (match c with
+   | White -> up
+   | Black -> N.add up (Npos (XO (XO (XO (XO (XO XH)))))))
+
+(** val flush : n -> n list **)
+
+let flush missing =
+  if N.eqb missing N0 then [] else show_dec missing
+
+(** val write_rank : board -> n -> n list **)
+
+let write_rank b r =
+  let (out, missing) =
+    fold_left (fun acc f ->
+      let (o, m) = acc in
+      (match raw_get b (mk_sq f r) with
+       | Some p0 ->
+         let (c, p) = p0 in
+         ((app o (app (flush m) ((piece_char c p) :: []))), N0)
+       | None -> (o, (N.add m (Npos XH))))) (N0 :: ((Npos XH) :: ((Npos (XO
+      XH)) :: ((Npos (XI XH)) :: ((Npos (XO (XO XH))) :: ((Npos (XI (XO
+      XH))) :: ((Npos (XO (XI XH))) :: ((Npos (XI (XI XH))) :: []))))))))
+      ([], N0)
+  in
+  app out
+    (app (flush missing)
+      (if N.eqb r N0 then [] else (Npos (XI (XI (XI (XI (XO XH)))))) :: []))
+
+(** val write_rights : n -> n list **)
+
+let write_rights r =
+  app
+    (if cr_contains r KingSide White
+     then (Npos (XI (XI (XO (XI (XO (XO XH))))))) :: []
+     else [])
+    (app
+      (if cr_contains r QueenSide White
+       then (Npos (XI (XO (XO (XO (XI (XO XH))))))) :: []
+       else [])
+      (app
+        (if cr_contains r KingSide Black
+         then (Npos (XI (XI (XO (XI (XO (XI XH))))))) :: []
+         else [])
+        (app
+          (if cr_contains r QueenSide Black
+           then (Npos (XI (XO (XO (XO (XI (XI XH))))))) :: []
+           else [])
+          (if N.eqb r N0 then (Npos (XI (XO (XI (XI (XO XH)))))) :: [] else []))))
+
+(** val write_fen : board -> n list **)
+
+let write_fen b =
+  app
+    (flat_map (write_rank b) ((Npos (XI (XI XH))) :: ((Npos (XO (XI
+      XH))) :: ((Npos (XI (XO XH))) :: ((Npos (XO (XO XH))) :: ((Npos (XI
+      XH)) :: ((Npos (XO XH)) :: ((Npos XH) :: (N0 :: [])))))))))
+    (app
+      (match b.b_turn with
+       | White ->
+         (Npos (XO (XO (XO (XO (XO XH)))))) :: ((Npos (XI (XI (XI (XO (XI (XI
+           XH))))))) :: ((Npos (XO (XO (XO (XO (XO XH)))))) :: []))
+       | Black ->
+         (Npos (XO (XO (XO (XO (XO XH)))))) :: ((Npos (XO (XI (XO (XO (XO (XI
+           XH))))))) :: ((Npos (XO (XO (XO (XO (XO XH)))))) :: [])))
+      (app (write_rights b.b_rights)
+        (app
+          (match b.b_ep with
+           | Some f ->
+             (Npos (XO (XO (XO (XO (XO
+               XH)))))) :: ((N.add (Npos (XI (XO (XO (XO (XO (XI XH))))))) f) :: (
+               (N.add (Npos (XI (XO (XO (XO (XI XH))))))
+                 (ep_capture_rank_of b.b_turn)) :: ((Npos (XO (XO (XO (XO (XO
+               XH)))))) :: [])))
+           | None ->
+             (Npos (XO (XO (XO (XO (XO XH)))))) :: ((Npos (XI (XO (XI (XI (XO
+               XH)))))) :: ((Npos (XO (XO (XO (XO (XO XH)))))) :: [])))
+          (app (show_dec b.b_half)
+            (app ((Npos (XO (XO (XO (XO (XO XH)))))) :: [])
+              (show_dec b.b_full))))))
+
 (** val api_score_cmp : score -> score -> comparison **)
 
 let api_score_cmp =
@@ -6318,14 +8474,14 @@ let api_adjacent_ranks i =
 
 let api_zk kind0 i =
   match kind0 with
-  | N0 -> nthN piece_zobrist_tbl i
+  | N0 -> nthN0 piece_zobrist_tbl i
   | Npos p ->
     (match p with
-     | XI _ -> nthN turn_zobrist_tbl i
+     | XI _ -> nthN0 turn_zobrist_tbl i
      | XO p0 ->
        (match p0 with
         | XH -> lk_ep_zobrist i
-        | _ -> nthN turn_zobrist_tbl i)
+        | _ -> nthN0 turn_zobrist_tbl i)
      | XH -> lk_castle_zobrist i)
 
 (** val api_elements : n -> n list **)
@@ -6645,3 +8801,178 @@ let api_mk_range x x0 =
 
 let api_run_stack =
   run_stack
+
+(** val api_parse_fen_t : n list -> presult outcome **)
+
+let api_parse_fen_t =
+  parse_fen_t
+
+(** val api_write_fen : board -> n list **)
+
+let api_write_fen =
+  write_fen
+
+(** val api_legals : board -> move list **)
+
+let api_legals =
+  legals
+
+(** val api_is_legal : board -> move -> bool **)
+
+let api_is_legal =
+  is_legal
+
+(** val api_gen_len : board -> n * bool **)
+
+let api_gen_len b =
+  let g0 = legals_gen b in ((mg_len g0), (mg_is_empty g0))
+
+(** val api_in_check : board -> bool **)
+
+let api_in_check =
+  in_check0
+
+(** val api_state : board -> gstate **)
+
+let api_state =
+  state
+
+(** val api_zobrist : board -> n **)
+
+let api_zobrist =
+  zobrist
+
+(** val api_apply : board -> move -> board **)
+
+let api_apply =
+  apply
+
+(** val api_abs : board -> position **)
+
+let api_abs =
+  abs
+
+(** val api_board_all_eqb : board -> board -> bool **)
+
+let api_board_all_eqb =
+  board_all_eqb
+
+(** val api_board_eqb : board -> board -> bool **)
+
+let api_board_eqb =
+  board_eqb
+
+(** val api_standard : board **)
+
+let api_standard =
+  standard
+
+(** val api_empty_board : board **)
+
+let api_empty_board =
+  empty_board
+
+(** val api_bstep : board -> bop -> board * bool **)
+
+let api_bstep =
+  bstep
+
+(** val api_build : board -> (board, verr) sum **)
+
+let api_build =
+  build
+
+(** val api_spec_legal_moves : position -> move list **)
+
+let api_spec_legal_moves =
+  legal_moves
+
+(** val api_spec_is_legal : position -> move -> bool **)
+
+let api_spec_is_legal =
+  is_legal_move
+
+(** val api_spec_in_check : position -> bool **)
+
+let api_spec_in_check =
+  in_check
+
+(** val api_spec_classify : position -> status **)
+
+let api_spec_classify =
+  classify
+
+(** val api_spec_make : position -> move -> position **)
+
+let api_spec_make =
+  make
+
+(** val api_spec_playable : position -> bool **)
+
+let api_spec_playable =
+  playable
+
+(** val api_spec_same_position : position -> position -> bool **)
+
+let api_spec_same_position =
+  same_position
+
+(** val api_spec_start : position **)
+
+let api_spec_start =
+  start_position
+
+(** val api_spec_mirror : position -> position **)
+
+let api_spec_mirror =
+  mirror
+
+(** val api_spec_pos_eqb : position -> position -> bool **)
+
+let api_spec_pos_eqb a b =
+  (&&) ((&&) (same_position a b) (N.eqb a.hm b.hm)) (N.eqb a.fm b.fm)
+
+(** val api_legals_gen : board -> movegen **)
+
+let api_legals_gen =
+  legals_gen
+
+(** val api_legals_masked_gen : board -> n -> movegen **)
+
+let api_legals_masked_gen =
+  legals_masked_gen
+
+(** val api_mg_next : movegen -> move option * movegen **)
+
+let api_mg_next =
+  mg_next
+
+(** val api_mg_len : movegen -> n **)
+
+let api_mg_len =
+  mg_len
+
+(** val api_mg_is_empty : movegen -> bool **)
+
+let api_mg_is_empty =
+  mg_is_empty
+
+(** val api_mg_set_mask : movegen -> n -> movegen **)
+
+let api_mg_set_mask =
+  mg_set_mask
+
+(** val api_mg_remove : movegen -> n -> movegen **)
+
+let api_mg_remove =
+  mg_remove
+
+(** val api_mg_remove_move : movegen -> move -> movegen * bool **)
+
+let api_mg_remove_move =
+  mg_remove_move
+
+(** val api_mk_move : n -> n -> piece option -> move **)
+
+let api_mk_move s d p =
+  { m_src = s; m_dst = d; m_promo = p }
